@@ -192,6 +192,9 @@ class Check:
             log("KNOWN-FINDING: property=%s %s (%d occurrence(s) in this run, e.g. %s)" %
                 (self.pid, fid, len(cases), json.dumps(cases[0])[:300]))
         self.cov["known_findings_reobserved"] = {k: len(v) for k, v in self.known_seen.items()}
+        nc = self.cov.get("harness_no_claim") or {}
+        if nc:      # crashes / CRAB_ERROR exits / timeouts of the real code: no claim for those cases, but never silent
+            log("NOTE: no claim for %d case(s) in which the real code exited or timed out: %s" % (sum(nc.values()), json.dumps(nc)[:400]))
         ev = {"property_id": self.pid, "tier": self.tier, "seed": self.seed, "level": self.level,
               "coverage": self.cov, "assumptions": self.assumptions, "wall_s": round(wall, 2),
               "violations": len(self.violations)}
